@@ -185,8 +185,8 @@ def unit_main_cli(eng, outfile_kind, lst, implicit_bin, n_emitted):
                 first = None
                 if emitted:
                     first = (emitted[0][3], emitted[0][2])
-                if exp_o is not None:
-                    first = exp_o            # the code lets -o override the listing anchor (emitted_file is reassigned)
+                if exp_o is not None and first is None:
+                    first = exp_o            # C19: beside the FIRST output file - a make_* output is written before the -o output
                 if first is None:
                     eng.prove("no-listing-without-an-output", rest == [])
                 else:
@@ -201,3 +201,164 @@ def unit_main_cli(eng, outfile_kind, lst, implicit_bin, n_emitted):
     for o_ in r["obligations"]:
         o_["cfg"] = dict(kind="cli")
     return r
+
+
+def replay_cli(o, tree):
+    """the unit's configuration on the real command line in a scratch directory: which files exist afterwards, with which bytes"""
+    import os
+    import re
+    import shutil
+    import subprocess
+    import tempfile
+    m = re.match(r"main_cli\[-o=(.*),lst=(True|False),implicit-bin=(True|False),make_\*=(\d)\]", o.get("unit", ""))
+    if not m:
+        return None
+    of, lst, ib, ne = m.group(1), m.group(2) == "True", m.group(3) == "True", int(m.group(4))
+    if of == "sym":
+        of = "x.out"
+    of = None if of == "None" else of
+    if of in ("-", "-.bin"):
+        return None
+    d = tempfile.mkdtemp(prefix="pyvc-cli-replay-")
+    try:
+        emitted = [("raw", "first.raw"), ("bin", "second.bin")][:ne]
+        src = "".join('make_%s "%s"\n' % e for e in emitted) + "a: mov #a, r0\nb = 5\n.word b\n"
+        open(os.path.join(d, "p.mac"), "w").write(src)
+        if of and "/" in of:
+            os.makedirs(os.path.join(d, os.path.dirname(of)), exist_ok=True)
+        args = ["p.mac"] + (["-o", of] if of else []) + (["--lst"] if lst else []) + (["--implicit-bin"] if ib else [])
+        p = subprocess.run(["/venv/bin/python", "-c", "import sys; sys.path.insert(0, %r); sys.argv = ['pdpy11'] + sys.argv[1:]; from pdpy11._cli import main_cli; main_cli()" % tree] + args,
+                           cwd=d, capture_output=True, text=True, timeout=120)
+        files = {}
+        for root, _, fs in os.walk(d):
+            for f in fs:
+                rel = os.path.relpath(os.path.join(root, f), d)
+                if rel != "p.mac":
+                    files[rel] = open(os.path.join(root, f), "rb").read()
+        code = bytes.fromhex("c015000205 00".replace(" ", ""))       # mov #1000, r0 ; .word 5
+        code = (0o012700).to_bytes(2, "little") + (0o1000).to_bytes(2, "little") + (5).to_bytes(2, "little")
+        binimg = (0o1000).to_bytes(2, "little") + len(code).to_bytes(2, "little") + code
+        want = {}
+        for fmt, path in emitted:
+            want[path] = binimg if fmt == "bin" else code
+        anchor = (emitted[0][1], emitted[0][0]) if emitted else None
+        if of:
+            fmt = "bin" if of.split("/")[-1].lower().endswith(".bin") else "raw"
+            want[of] = binimg if fmt == "bin" else code
+            if anchor is None:
+                anchor = (of, fmt)
+        elif ib and not emitted:
+            want["p.bin"] = binimg
+            anchor = ("p.bin", "bin")
+        if lst and anchor:
+            base = anchor[0][:-(len(anchor[1]) + 1)] if anchor[0].endswith("." + anchor[1]) else anchor[0]
+            want[base + ".lst"] = None
+        bad = []
+        if p.returncode != 0:
+            bad.append(("exit status", p.returncode, p.stderr[-200:]))
+        if sorted(files) != sorted(want):
+            bad.append(("files", sorted(files), "expected", sorted(want)))
+        for k, v in want.items():
+            if v is not None and k in files and files[k] != v:
+                bad.append(("bytes of " + k, files[k].hex(), v.hex()))
+        return dict(jobs=None, experiment="CLI %s on a 3-statement program with %d make_* directives" % (" ".join(args), ne), expected=sorted(want), observed=bad or sorted(files), reproduced=bool(bad))
+    finally:
+        shutil.rmtree(d, ignore_errors=True)
+
+
+EMIT_SHAPES = [(), ("bin",), ("raw", "bin"), ("bk_wav", "bk_wav"), ("bk_wav", "bk_turbo_wav", "bk_wav"), ("bin", "bin", "raw"), ("bk_turbo_wav", "bk_turbo_wav")]
+
+
+def unit_emit_files(eng, shape):
+    """Compiler.emit_files over a list of output records: record i is written exactly once, in order, at ITS path, with ITS format's
+    container built from the image and ITS OWN extra arguments (the tape name of a WAV) - also when several records share a format;
+    a write that fails is reported as io-error; the first record is what is returned (the listing anchor)"""
+    name = "Compiler.emit_files[%s]" % ",".join(shape)
+
+    def run(eng):
+        eng.I = {}
+        I = eng.I
+        I.update(writes=[], opened=[])
+        rep = eng.load_module("reports")
+        cmod = eng.load_module("compiler")
+        comp = eng.call(eng.resolve_global(cmod, "Compiler"), [], {})
+        base = int_input(eng, "base")
+        code = abstract_seq("image")
+        recs = []
+        for i, fmt in enumerate(shape):
+            extra = (abstract_seq("tape_name_%d" % i),) if fmt.startswith("bk_") else ()
+            recs.append((_ctx(eng), _ctx(eng), fmt, "/out/file%d.%s" % (i, fmt)) + extra)
+        comp.attrs["emitted_files"] = list(recs)
+        ff = eng.resolve_global(cmod, "file_formats")
+        for fname in list(ff):
+            ff[fname] = Builtin("format:" + fname, lambda e, b_, c_, *args, _n=fname: Obj("Container", dict(fmt=_n, base=b_, code=c_, args=tuple(args)), name="container"))
+        I.update(base=base, code=code, recs=recs)
+
+        def c_open_device(e, path, mode):
+            k = pick(e, ["ok", "IOError"], "open_device")
+            I["opened"].append((path, mode, k))
+            if k == "IOError":
+                raise PyRaise(Exc("IOError"))
+            f = Obj("Device", name="device")
+            f.attrs["__enter__"] = Builtin("enter", lambda e2: f)
+            f.attrs["__exit__"] = Builtin("exit", lambda e2, *a: False)
+            f.attrs["write"] = Builtin("write", lambda e2, data, _p=path: I["writes"].append((_p, data)))
+            return f
+        eng.contracts["open_device"] = c_open_device
+        return eng.call(Bound(comp, comp.cls.lookup("emit_files")), [base, code], {})
+
+    def post(eng, o):
+        I = eng.I
+        recs = I["recs"]
+        eng.prove("no-exception", o[0] == "return")
+        if o[0] != "return":
+            return
+        if not recs:
+            eng.prove("nothing-to-emit:(False, None)", o[1][0] is False and o[1][1] is None and not I["opened"])
+            return
+        eng.prove("every-record-is-opened-exactly-once-in-order-at-its-own-path-for-binary-writing",
+                  [(p_, m_) for p_, m_, _ in I["opened"]] == [(r[3], "wb") for r in recs])
+        ok_recs = [r for r, (_, _, k) in zip(recs, I["opened"]) if k == "ok"]
+        eng.prove("one-write-per-successfully-opened-record-in-order", [w[0] for w in I["writes"]] == [r[3] for r in ok_recs])
+        for (path, data), r in zip(I["writes"], ok_recs):
+            good = isinstance(data, Obj) and data.cls == "Container" and data.attrs["fmt"] == r[2] and data.attrs["base"] is I["base"] and data.attrs["code"] is I["code"] \
+                and len(data.attrs["args"]) == len(r[4:]) and all(a is b for a, b in zip(data.attrs["args"], r[4:]))
+            eng.prove("the-file-holds-its-format's-container-of-the-image-with-ITS-OWN-arguments(e.g. tape name)", good)
+        n_fail = sum(1 for _, _, k in I["opened"] if k == "IOError")
+        eng.prove("each-failed-write-is-an-io-error-report", [e[1] for e in errors(eng)] == ["io-error"] * n_fail)
+        eng.prove("returns-(True, first record's format and path)", o[1][0] is True and o[1][1]["format"] == recs[0][2] and o[1][1]["path"] == recs[0][3])
+    r = verify(eng, name, run, post, func="compiler.Compiler.emit_files")
+    for o_ in r["obligations"]:
+        o_["cfg"] = dict(kind="emit_files", shape=list(shape))
+    return r
+
+
+def replay_emit_files(o, tree):
+    """two WAV outputs with different tape names (and two bin outputs) through the real CLI: each file must carry its own name"""
+    import os
+    import shutil
+    import subprocess
+    import tempfile
+    from spec import bk_tape
+    d = tempfile.mkdtemp(prefix="pyvc-emit-")
+    try:
+        open(os.path.join(d, "p.mac"), "w").write('make_wav "first.wav", "GAME"\nmake_wav "second.wav", "GAME BACKUP"\nmake_turbo_wav "t1.wav", "T1"\nmake_turbo_wav "t2.wav", "T2"\nmake_bin "a.bin"\nmake_bin "b.bin"\n.word 1, 2\n')
+        p = subprocess.run(["/venv/bin/python", "-c", "import sys; sys.path.insert(0, %r); sys.argv = ['pdpy11', 'p.mac']; from pdpy11._cli import main_cli; main_cli()" % tree],
+                           cwd=d, capture_output=True, text=True, timeout=120)
+        bad = []
+        for fn, nm in (("first.wav", b"GAME"), ("second.wav", b"GAME BACKUP")):
+            try:
+                dm = bk_tape.demodulate(open(os.path.join(d, fn), "rb").read()[44:])
+                if bytes(dm["name"]) != nm.ljust(16):
+                    bad.append((fn, bytes(dm["name"]), nm.ljust(16)))
+            except Exception as e:  # pylint: disable=broad-except
+                bad.append((fn, "unreadable", repr(e)[:80]))
+        for fn in ("a.bin", "b.bin", "t1.wav", "t2.wav"):
+            if not os.path.exists(os.path.join(d, fn)):
+                bad.append((fn, "missing"))
+        if os.path.exists(os.path.join(d, "t1.wav")) and os.path.exists(os.path.join(d, "t2.wav")) and open(os.path.join(d, "t1.wav"), "rb").read() == open(os.path.join(d, "t2.wav"), "rb").read():
+            bad.append(("t1.wav and t2.wav", "identical although their tape names differ"))
+        return dict(jobs=None, experiment="CLI on a program with two make_wav, two make_turbo_wav and two make_bin directives", observed=bad or "each file carries its own tape name",
+                    exit=p.returncode, reproduced=bool(bad))
+    finally:
+        shutil.rmtree(d, ignore_errors=True)
